@@ -490,11 +490,18 @@ func (p *RegProcessor) processBdReq(c2sPayload *pb.C2SWrapper) (*pb.Registration
 		return nil, ErrRegProcessFailed
 	}
 
+	// Take one snapshot of the selector and use it for both address families. Taking the read lock a
+	// second time while still holding it deadlocks with a ReloadSubnets that asks for the write lock
+	// in between (a waiting writer blocks new readers), and releasing it between the two selections
+	// would let one response mix the old and the new subnet set. A selector is never modified after
+	// it has been installed, so it can be used without the lock.
+	p.selectorMutex.RLock()
+	selector := p.ipSelector
+	p.selectorMutex.RUnlock()
+
 	phantomSubnetSupportsRandPort := true
 	if c2s.GetV4Support() {
-		p.selectorMutex.RLock()
-		defer p.selectorMutex.RUnlock()
-		phantom4, err := p.ipSelector.Select(
+		phantom4, err := selector.Select(
 			cjkeys.ConjureSeed,
 			uint(c2s.GetDecoyListGeneration()), //generation type uint
 			clientLibVer,
@@ -511,9 +518,7 @@ func (p *RegProcessor) processBdReq(c2sPayload *pb.C2SWrapper) (*pb.Registration
 	}
 
 	if c2s.GetV6Support() {
-		p.selectorMutex.RLock()
-		defer p.selectorMutex.RUnlock()
-		phantom6, err := p.ipSelector.Select(
+		phantom6, err := selector.Select(
 			cjkeys.ConjureSeed,
 			uint(c2s.GetDecoyListGeneration()),
 			clientLibVer,
